@@ -5,6 +5,7 @@ gzip/json), so that a pair that is wrong in both directions is still caught.
 """
 import base64
 import binascii
+import hashlib
 import gzip
 import json
 import math
@@ -12,6 +13,7 @@ from fractions import Fraction
 
 from hypothesis import strategies as st
 
+from .gens import wide_ints
 from .core import Fail, GeneratorBug
 from .test_c06 import form_src
 from .values import NDict, canon, from_canon, mcanon, norm, render, render_int, render_str
@@ -40,6 +42,16 @@ def to_radix(n, b):
         s.append(DIGITS[m % b])
         m //= b
     return ("-" if n < 0 else "") + "".join(reversed(s))
+
+
+def expand(seed, n):
+    """n incompressible bytes as a pure function of the generated seed (SHA-256 in counter mode)"""
+    out = bytearray()
+    k = 0
+    while len(out) < n:
+        out += hashlib.sha256(b"%d:%d" % (seed, k)).digest()
+        k += 1
+    return bytes(out[:n])
 
 
 def S(v):
@@ -83,9 +95,9 @@ def build(c):
     elif t == "rat":
         out.append(("rational", "rational(%s)" % render_str(c["s"]), ("eq", mcanon(Fraction(c["p"], c["q"])))))
     elif t == "bytes":
-        b = bytes.fromhex(c["hex"])
-        B = render(b)
+        b = bytes.fromhex(c["hex"]) if "hex" in c else expand(c["gen"][0], c["gen"][1])
         hx = binascii.hexlify(b).decode()
+        B = render(b) if len(b) < 4096 else "hex_decode(%s)" % render_str(hx)
         b64 = base64.b64encode(b).decode()
         out.append(("hex_encode", "hex_encode(%s)" % B, ("eq", S(hx))))
         out.append(("hex_decode", "hex_decode(%s)" % render_str(hx), ("eq", mcanon(b))))
@@ -181,7 +193,7 @@ def nontrivial(c):
     if t == "rat":
         return any(ch in c["s"] for ch in "-+eE./")
     if t == "bytes":
-        return len(c["hex"]) >= 128 or len(c["hex"]) == 0
+        return "gen" in c or len(c["hex"]) >= 128 or len(c["hex"]) == 0
     if t == "text":
         return any(ord(ch) > 127 for ch in c["s"])
     if t == "chr":
@@ -243,7 +255,7 @@ def s_ints():
     b = st.builds(lambda b, d, s: s * (b + d), st.sampled_from([0, 1, 2 ** 31, 2 ** 63, 2 ** 64]), st.integers(-2, 2),
                   st.sampled_from([1, -1]))
     big = st.one_of(st.integers(1, 70), st.integers(1, 2000)).flatmap(lambda k: st.integers(-(2 ** k), 2 ** k))
-    return st.one_of(b, big, st.integers(-300, 300))
+    return st.one_of(b, big, st.integers(-300, 300), wide_ints(1, 140), wide_ints(1, 2000))
 
 
 def s_ratcase():
@@ -310,6 +322,10 @@ def s_cases(thorough):
     byts = st.one_of(st.binary(max_size=64), st.binary(max_size=600),
                      st.builds(lambda chunk, k: (chunk * k)[:maxb], st.binary(min_size=1, max_size=40), st.integers(1, maxb // 8))
                      ).map(lambda b: {"t": "bytes", "hex": b.hex()})
+    # incompressible data whose gzip form is longer than the decoder's internal buffers (tens of KiB and more)
+    bigb = st.builds(lambda seed, n: {"t": "bytes", "gen": [seed, n]}, st.integers(0, 2 ** 32), st.sampled_from([20000, 33000, 40000, 66000, 100000, 140000] if not thorough else
+                                                                                                 [20000, 33000, 40000, 66000, 100000, 140000, 300000, 1100000]))
+    byts = st.one_of(byts, byts, byts, byts, bigb)
     text = st.text(alphabet=st.characters(blacklist_categories=("Cs",)), max_size=20).map(lambda s: {"t": "text", "s": s})
     cps = st.one_of(st.integers(0, 0x10FFFF), st.sampled_from([0, 0x7f, 0x80, 0x7ff, 0x800, 0xd7ff, 0xd800, 0xdfff, 0xe000, 0xffff,
                                                                 0x10000, 0x10ffff, 0x110000, -1])).map(lambda cp: {"t": "chr", "cp": cp})
